@@ -1358,17 +1358,9 @@ func runMASTSHARE(c *Ctx) {
 	if st := P.StructOf(ir.MastPath, "Mast"); st != nil {
 		for i := 0; i < st.NumFields(); i++ {
 			f := st.Field(i)
-			kind := ""
-			switch f.Type().Underlying().(type) {
-			case *types.Slice:
-				kind = "slice"
-			case *types.Map:
-				kind = "map"
-			case *types.Pointer:
-				kind = "pointer"
-			case *types.Chan:
-				kind = "channel"
-			}
+			// (looked for inside struct- and array-typed fields as well: `scratch struct{ path []pathEntry }`, a memo
+			// struct holding a *mastNode — adv16-E-a1, -a3 — are copied by Clone just the same)
+			kind := sharedRefKind(f.Type(), 0)
 			if kind == "" {
 				c.OK(P.Pos(f.Pos()), "Mast."+f.Name(), "value, interface or function typed", true)
 				continue
@@ -1379,6 +1371,39 @@ func runMASTSHARE(c *Ctx) {
 	} else {
 		c.AnchorMissing("struct Mast")
 	}
+}
+
+// sharedRefKind: does a value of type t, copied by assignment, share memory with the original? Slices, maps, pointers
+// and channels do, at any depth inside structs and arrays; interfaces and function values are the tabled handles (root
+// link, sample key/value, store, cache, callbacks) and are not followed; sync types must not be copied at all.
+func sharedRefKind(t types.Type, d int) string {
+	if d > 4 {
+		return ""
+	}
+	if n, ok := types.Unalias(t).(*types.Named); ok && n.Obj().Pkg() != nil && n.Obj().Pkg().Path() == "sync" {
+		return "sync." + n.Obj().Name() + " (copied by Clone)"
+	}
+	switch u := t.Underlying().(type) {
+	case *types.Slice:
+		return "slice"
+	case *types.Map:
+		return "map"
+	case *types.Pointer:
+		return "pointer"
+	case *types.Chan:
+		return "channel"
+	case *types.Array:
+		if k := sharedRefKind(u.Elem(), d+1); k != "" {
+			return "array of " + k
+		}
+	case *types.Struct:
+		for i := 0; i < u.NumFields(); i++ {
+			if k := sharedRefKind(u.Field(i).Type(), d+1); k != "" {
+				return "struct holding a " + k + " (field " + u.Field(i).Name() + ")"
+			}
+		}
+	}
+	return ""
 }
 
 // ---- GROWLOOP ---------------------------------------------------------------------------------------------
